@@ -10,6 +10,8 @@ model are `Rat`; the implementation side of the correspondence check reports
 the Python type of every numeric item (a float is an oracle failure).
 -/
 import QuantityModel.Proofs.Term
+import QuantityModel.Proofs.TermNormal
+import QuantityModel.Proofs.Scale
 namespace QM.Props.C07
 open QM
 
@@ -117,6 +119,58 @@ theorem normal_form_numeric_part (items : Items) (keep : Bool) :
     · intro q e hq
       simp only [atomItems, List.head?_map, Option.map_eq_some_iff, Prod.mk.injEq, reduceCtorEq,
         false_and, and_false, exists_false] at hq
+
+/-- **Normalisation is idempotent**: the normal form of a normal form is that
+normal form (so the cached `_normalized` of a normal form may point to itself).
+Hypotheses: sort keys are not negative (the code reserves -1 for numbers) and
+stored normalised definitions mention base elements only; both hold in every
+reachable registry (`normalize_idempotent_reachable`). -/
+theorem normalize_idempotent (hk : KeysNonneg env) (hdb : DefsBaseOnly env) (t : Items) :
+    termNormalized env (termNormalized env t) = termNormalized env t :=
+  termNormalized_idem env hk hdb t
+
+/-- **The canonical form**: normalising yields at most one numeric item — in
+front, with exponent 1 and ≠ 1 — followed by base elements only, in ascending
+order of their sort keys, each at most once, each with a non-zero exponent. -/
+theorem normal_form (hk : KeysNonneg env) (hdb : DefsBaseOnly env) (t : Items) :
+    ∃ (q : ℚ) (l : List (Nat × Int)),
+      normalizedItems env t = (if q != 1 then [(Elem.num q, 1)] else []) ++ atomItems l ∧
+      (l.map Prod.fst).Pairwise (fun a b => (env.info a).key ≤ (env.info b).key) ∧
+      (l.map Prod.fst).Nodup ∧
+      (∀ p ∈ l, p.2 ≠ 0) ∧ (∀ p ∈ l, (env.info p.1).isBase = true) :=
+  normalizedItems_shape env hk hdb t
+
+/-- Reducing the items of an already reduced term changes nothing (every
+`Term(...)` built from a reduced term's items is that term again). -/
+theorem reduce_idempotent (hk : KeysNonneg env) (items : Items) :
+    reduceGeneral env (reduceGeneral env items false) false = reduceGeneral env items false :=
+  reduceGeneral_idem env hk items
+
+/-- In every registry reachable by well-formed declarations the two hypotheses
+hold: unit terms there normalise idempotently and to the canonical form. -/
+theorem keys_nonneg_registry (s : RegState) : KeysNonneg s.unitEnv := by
+  intro a
+  unfold keyOf
+  by_cases h : a < s.units.length
+  · rw [unitEnv_info s a h]; exact Int.natCast_nonneg _
+  · unfold Env.info RegState.unitEnv
+    simp only [List.getD_eq_getElem?_getD, List.getElem?_map,
+      List.getElem?_eq_none (not_lt.mp h), Option.map_none, Option.getD_none]
+    decide
+
+theorem normalize_idempotent_reachable (s : RegState) (h : ReachableWF s) (t : Items) :
+    termNormalized s.unitEnv (termNormalized s.unitEnv t) = termNormalized s.unitEnv t :=
+  termNormalized_idem _ (keys_nonneg_registry s)
+    (defsBaseOnly_of_scaleInv s (reachableWF_scaleInv h)) t
+
+theorem normal_form_reachable (s : RegState) (h : ReachableWF s) (t : Items) :
+    ∃ (q : ℚ) (l : List (Nat × Int)),
+      normalizedItems s.unitEnv t = (if q != 1 then [(Elem.num q, 1)] else []) ++ atomItems l ∧
+      (l.map Prod.fst).Pairwise (fun a b => (s.unitEnv.info a).key ≤ (s.unitEnv.info b).key) ∧
+      (l.map Prod.fst).Nodup ∧
+      (∀ p ∈ l, p.2 ≠ 0) ∧ (∀ p ∈ l, (s.unitEnv.info p.1).isBase = true) :=
+  normalizedItems_shape _ (keys_nonneg_registry s)
+    (defsBaseOnly_of_scaleInv s (reachableWF_scaleInv h)) t
 
 /-! ### Known finding D5 (kept visible): completeness of equality fails for
 non-convertible elements sharing a sort key.  The *full* statement
